@@ -1036,7 +1036,13 @@ func ruleR11l(c *Check) {
 	c.Rule("R11l", "in the input resolver a literal (glob-free) input is appended to the resolved list unchanged, or after filepath.Clean / path.Clean only", 1)
 	var res *ssa.Function
 	for _, fn := range c.P.Funcs {
-		if engine.InPackage(fn, "loading") && fn.Parent() == nil && len(callsNamed(fn, "github.com/bmatcuk/doublestar/v4.Glob")) > 0 {
+		globs := len(callsNamed(fn, "github.com/bmatcuk/doublestar/v4.Glob")) > 0
+		for _, lit := range engine.AnonFuncsDeep(fn) {
+			if len(callsNamed(lit, "github.com/bmatcuk/doublestar/v4.Glob")) > 0 {
+				globs = true // the glob call wrapped in a literal of the resolver
+			}
+		}
+		if engine.InPackage(fn, "loading") && fn.Parent() == nil && globs {
 			// the one that handles the inputs (not only the exclusions): it tests for glob characters
 			if res == nil || len(callsNamed(fn, "strings.ContainsAny")) > 0 {
 				res = fn
